@@ -171,6 +171,15 @@ func runCase(out *lib.Out, id, engine string, vals []*lib.Val, script string) {
 	for i, v := range vals {
 		vs[i] = v.Text()
 	}
+	// same-engine AssignNode arguments of scripts shared by both engines
+	for _, tag := range []string{"T", "F", "K"} {
+		switch {
+		case strings.HasPrefix(engine, "bind:"):
+			script = strings.ReplaceAll(script, " "+tag+lib.Hex("SAME:"), " "+tag+lib.Hex("tbind:"))
+		case strings.HasPrefix(engine, "gen:"):
+			script = strings.ReplaceAll(script, " "+tag+lib.Hex("SAME:"), " "+tag+lib.Hex("tgen:"))
+		}
+	}
 	out.Case(id, "c12", engine, strings.Join(vs, ";"), script, observe(engine, script))
 }
 
@@ -185,6 +194,8 @@ type injGen struct {
 	typed  bool // typed engines: values at int / struct positions, wrong-kind injections at values
 	eng    string // typed family: the engine the script is for (same-engine AssignNode arguments)
 	genOnly bool  // the script runs on generated code only: unknown field names may be injected
+	ctxTy  string   // type text and value of the typed container being assembled: source of same-engine
+	ctxV   *lib.Val // key nodes (K) and looked-up children (F)
 	depth  int
 }
 
@@ -236,7 +247,21 @@ func (g *injGen) dup(accepted []string) []*lib.Op {
 	}
 }
 
+// the engine whose own nodes serve as AssignNode arguments: fixed for the per-engine scripts of the
+// typed family, "SAME" (replaced per engine when the case is run) for scripts shared by the engines
+func (g *injGen) engName() string {
+	if g.eng != "" {
+		return g.eng
+	}
+	return "SAME"
+}
+
 func (g *injGen) entryHead(k string) []*lib.Op {
+	if g.ctxTy != "" && g.r.Chance(15) { // the key as the node the engine's own map iterator yields
+		ops := []*lib.Op{op("AK")}
+		ops = append(ops, g.keyTries()...)
+		return append(ops, &lib.Op{Code: "XN", N: &lib.NSpec{Tag: 'K', Eng: g.engName(), Ty: g.ctxTy, Key: k, V: g.ctxV}}, op("AV"))
+	}
 	switch g.r.Intn(3) {
 	case 0:
 		return []*lib.Op{{Code: "AE", Key: k}}
@@ -295,6 +320,9 @@ var structTries = []*lib.Op{
 func (g *injGen) msg3(v *lib.Val) []*lib.Op {
 	ops := []*lib.Op{{Code: "BM", Hint: 3}}
 	var acc []string
+	saveTy, saveV := g.ctxTy, g.ctxV
+	g.ctxTy, g.ctxV = lib.TypedFamily()[6].Text(), v
+	defer func() { g.ctxTy, g.ctxV = saveTy, saveV }()
 	for _, i := range g.r.Perm(3) {
 		e := v.M[i]
 		ops = append(ops, g.dup(acc)...)
@@ -314,9 +342,14 @@ func (g *injGen) msg3(v *lib.Val) []*lib.Op {
 		if g.point() {
 			ops = append(ops, want(intTries[g.r.Intn(len(intTries))], "w"))
 		}
-		if g.r.Chance(20) {
+		switch c := g.r.Intn(100); {
+		case c < 15:
 			ops = append(ops, &lib.Op{Code: "XN", N: lib.PlainSpec(e.V)})
-		} else {
+		case c < 27: // a gendemo Int node: the generated code's own scalar type, a foreign node for bindnode
+			ops = append(ops, &lib.Op{Code: "XN", N: &lib.NSpec{Tag: 'I', V: e.V}})
+		case c < 42: // the field looked up from another Msg3 of the same engine
+			ops = append(ops, &lib.Op{Code: "XN", N: &lib.NSpec{Tag: 'F', Eng: g.engName(), Ty: g.ctxTy, Key: e.K, V: v}})
+		default:
 			ops = append(ops, &lib.Op{Code: "X", V: e.V})
 		}
 		acc = append(acc, e.K)
@@ -325,16 +358,32 @@ func (g *injGen) msg3(v *lib.Val) []*lib.Op {
 	return append(ops, op("FI"))
 }
 
+// a Msg3 at a struct position: assembled, or a whole node of the same engine
+func (g *injGen) msg3pos(v *lib.Val) []*lib.Op {
+	if g.r.Chance(12) {
+		return []*lib.Op{{Code: "XN", N: &lib.NSpec{Tag: 'T', Eng: g.engName(), Ty: lib.TypedFamily()[6].Text(), V: v}}}
+	}
+	return g.msg3(v)
+}
+
 func (g *injGen) mapMsg3(v *lib.Val) []*lib.Op {
 	ops := []*lib.Op{{Code: "BM", Hint: int64(len(v.M))}}
 	var acc []string
+	mty := lib.TypedFamily()[5].Text()
 	for _, e := range v.M {
 		ops = append(ops, g.dup(acc)...)
+		g.ctxTy, g.ctxV = mty, v
 		ops = append(ops, g.entryHead(e.K)...)
+		g.ctxTy, g.ctxV = "", nil
 		if g.point() {
 			ops = append(ops, want(structTries[g.r.Intn(len(structTries))], "w"))
 		}
-		ops = append(ops, g.msg3(e.V)...)
+		if g.r.Chance(15) { // the value looked up from another map of the same engine
+			ops = append(ops, &lib.Op{Code: "XN", N: &lib.NSpec{Tag: 'F', Eng: g.engName(), Ty: mty, Key: e.K, V: v}})
+			acc = append(acc, e.K)
+			continue
+		}
+		ops = append(ops, g.msg3pos(e.V)...)
 		acc = append(acc, e.K)
 	}
 	ops = append(ops, g.dup(acc)...)
@@ -403,14 +452,24 @@ func (g *injGen) shape(spec string, v *lib.Val, root bool) []*lib.Op {
 	if g.r.Chance(p) { // the whole value as a node of another implementation
 		return append(ops, &lib.Op{Code: "XN", N: lib.PlainSpec(v)})
 	}
+	if g.r.Chance(p / 2) { // ... or of the same engine and type
+		return append(ops, &lib.Op{Code: "XN", N: &lib.NSpec{Tag: 'T', Eng: g.engName(), Ty: shapeTy(spec).Text(), V: v}})
+	}
 	switch spec[0] {
 	case 'M':
 		ops = append(ops, &lib.Op{Code: "BM", Hint: int64(len(v.M)) + int64(g.r.Intn(3)) - 1})
 		var acc []string
+		mty := shapeTy(spec).Text()
 		for _, e := range v.M {
 			ops = append(ops, g.dup(acc)...)
+			g.ctxTy, g.ctxV = mty, v
 			ops = append(ops, g.entryHead(e.K)...)
-			ops = append(ops, g.shape(spec[1:], e.V, false)...)
+			g.ctxTy, g.ctxV = "", nil
+			if g.r.Chance(12) { // the value looked up from another map of the same engine
+				ops = append(ops, &lib.Op{Code: "XN", N: &lib.NSpec{Tag: 'F', Eng: g.engName(), Ty: mty, Key: e.K, V: v}})
+			} else {
+				ops = append(ops, g.shape(spec[1:], e.V, false)...)
+			}
 			acc = append(acc, e.K)
 		}
 		ops = append(ops, g.dup(acc)...)
@@ -535,7 +594,13 @@ func (g *injGen) typedValue(t *lib.SchTy, nul bool, v *lib.Val) []*lib.Op {
 	case 'M':
 		ops = append(ops, &lib.Op{Code: "BM", Hint: int64(len(v.M))})
 		for _, e := range v.M {
+			g.ctxTy, g.ctxV = t.Text(), v
 			ops = append(ops, g.entryHead(e.K)...)
+			g.ctxTy, g.ctxV = "", nil
+			if g.r.Chance(12) { // the value looked up from another map of the same engine and type
+				ops = append(ops, &lib.Op{Code: "XN", N: &lib.NSpec{Tag: 'F', Eng: g.eng, Ty: t.Text(), Key: e.K, V: v}})
+				continue
+			}
 			ops = append(ops, g.typedValue(t.Elem, t.Nul, e.V)...)
 		}
 		return append(ops, op("FI"))
@@ -549,7 +614,13 @@ func (g *injGen) typedValue(t *lib.SchTy, nul bool, v *lib.Val) []*lib.Op {
 					ft = &t.Fields[j]
 				}
 			}
+			g.ctxTy, g.ctxV = t.Text(), v
 			ops = append(ops, g.entryHead(e.K)...)
+			g.ctxTy, g.ctxV = "", nil
+			if g.r.Chance(15) { // the field looked up from another struct of the same engine and type
+				ops = append(ops, &lib.Op{Code: "XN", N: &lib.NSpec{Tag: 'F', Eng: g.eng, Ty: t.Text(), Key: e.K, V: v}})
+				continue
+			}
 			ops = append(ops, g.typedValue(ft.T, ft.Nul, e.V)...)
 		}
 		return append(ops, op("FI"))
